@@ -95,11 +95,47 @@ def b0 : World :=
 set_option maxRecDepth 100000 in
 /-- selling 780.048891 of notional (one unit less than the whole position is worth) is a *reduce*, but the
     vAMM rounds the base amount up to the whole 84.604450: the record ends at size 0 still holding its
-    margin, nothing is paid out (with a non-zero maintenance ratio the final margin-ratio guard rejects
-    this outcome) -/
-theorem c11_witness :
+    margin (100 + the realised 0.048892) and 0.000001 of notional, nothing is paid out (with a non-zero
+    maintenance ratio the final margin-ratio guard rejects this outcome).  Nothing was closed by a reversal:
+    `Spec.C11.check`, which now follows the engine's own case distinction (position worth more than the
+    order ⇒ reduce ⇒ clause "checkpoint moved"), is EMPTY.  (The former predicate classified by the outcome —
+    size 0 after an opposite order — and reported `funding-skipped-when-closing-by-reversal` here; this was
+    the witness for the former sub-case hypothesis `mmr ≠ 0` of `sat_C11`.) -/
+theorem c11_rounded_reduce_ok :
     Spec.C11.check (modelStep b0 ⟨2, 1000⟩ 100 ⟨0, false⟩ (.engine (.openPosition 10 .sell 780048891 D 0)))
-      = ["funding-skipped-when-closing-by-reversal"] := by decide +kernel
+      = []
+    ∧ (modelStep b0 ⟨2, 1000⟩ 100 ⟨0, false⟩ (.engine (.openPosition 10 .sell 780048891 D 0))).ok = true
+    ∧ (step b0 ⟨2, 1000⟩ 100 ⟨0, false⟩ (.engine (.openPosition 10 .sell 780048891 D 0))).engine.positions
+      = [⟨10, 100, .addToAmm, Integer.zero, 100048892, 1, Integer.zero, 2⟩] := by decide +kernel
+
+/-- a deployment whose only vAMM lives at address 0 — the engine's "no record" sentinel (excluded by the
+    invariant `Mirror.NoZeroVamm`) —, maintenance ratio 5 %, a stored long of 84.604450 base under (0, 100) -/
+def z0 : World :=
+  { env := ⟨1, 5⟩,
+    engine := eng false (5 * 10^4) (25 * 10^4)
+      [⟨0, 100, .addToAmm, Integer.newPositive 84604450, 100 * D, 780 * D, Integer.zero, 1⟩],
+    vamms := [(0, vamm (10000 * D) (1000 * D) 0 1800 (Integer.newPositive 84604450))],
+    ifund := { owner := 61, engine := ENGINE, vamms := [0], stored := true },
+    feePool := { owner := 62, tokens := [5] },
+    feed := .mock { owner := 63, price := some (10 * D) },
+    ledger := { bal := [(100, 10000 * D), (ENGINE, 5000 * D), (IFUND, 5000 * D)], allow := [(100, 10000 * D)] } }
+
+set_option maxRecDepth 100000 in
+/-- user 100 sells 780.048900 of notional at 10x (the stored long is worth 780.048892: not more than the
+    order, so the property expects a reversal, and the 0.000008 left over is less than one unit of margin at
+    10x, so a close-only one that pays out margin + PnL).  But `get_position` takes the record — its vAMM
+    field is 0 — for an absent one and reports the order's own direction: the engine runs an *increase*
+    (`swap_input` of the whole notional, margin 78.004890 pulled from the trader, no payout) and stores the
+    record as a short of 1 raw unit with both notionals added up.  The clause fails although the maintenance
+    ratio is not 0: hypothesis `SatC11.NoZeroVamm` of `sat_C11` -/
+theorem c11_needs_noZeroVamm :
+    Spec.C11.check (modelStep z0 ⟨2, 1000⟩ 100 ⟨0, false⟩ (.engine (.openPosition 0 .sell 78004890 (10 * D) 0)))
+      = ["funding-skipped-when-closing-by-reversal"]
+    ∧ (modelStep z0 ⟨2, 1000⟩ 100 ⟨0, false⟩ (.engine (.openPosition 0 .sell 78004890 (10 * D) 0))).xfers
+      = [(100, ENGINE, 78004890)]
+    ∧ (step z0 ⟨2, 1000⟩ 100 ⟨0, false⟩ (.engine (.openPosition 0 .sell 78004890 (10 * D) 0))).engine.positions
+      = [⟨0, 100, .removeFromAmm, Integer.newNegative 1, 178004890, 1560048900, Integer.zero, 2⟩] := by
+  decide +kernel
 
 /-- funding buffer 0 instead of half the period -/
 def noBuffer : World := world (eng false (5 * 10^4) (25 * 10^4) []) (vamm (10000 * D) (1000 * D) 0 0 Integer.zero)
@@ -119,7 +155,7 @@ theorem c11_needs_noFunds :
     Spec.C11.check (modelStep nativeW ⟨2, 7200⟩ 100 ⟨7, false⟩ (.engine (.payFunding 10)))
       = ["funding-moved-collateral-with-zero-payment"] := by decide +kernel
 
-/-- a zero-size record that still carries margin 100 and notional 50 (as `c11_witness` leaves behind) -/
+/-- a zero-size record that still carries margin 100 and notional 50 (as `c11_rounded_reduce_ok` leaves behind) -/
 def staleNotional : World :=
   world (eng false (5 * 10^4) (25 * 10^4) [⟨10, 100, .addToAmm, Integer.zero, 100 * D, 50 * D, Integer.zero, 1⟩])
     (vamm (10000 * D) (1000 * D) 0 1800 Integer.zero)
